@@ -286,6 +286,63 @@ def run(tier):
             sigma = [[perm[j], j] for j in range(n)]      # old id -> new id
             recs.append({"id": rid, "g0": drive.gjson(p0), "g1": drive.gjson(p1), "sigma": sigma, "mirror": mirror,
                          "file": name, "perm": perm})
+    # distorted four-coordinate centres (see-saw, hemispherical, random): any non-planar arrangement is perceived as
+    # Tetrahedral and the result must not depend on the order of the atoms
+    n_dist = 12 if tier == "quick" else 80
+    r_cov2 = geom.radii()
+    made = 0
+    attempts = 0
+    while made < n_dist and attempts < 2000:
+        attempts += 1
+        kind_d = attempts % 3
+        if kind_d == 0:      # see-saw: trigonal bipyramid without one equatorial ligand
+            dirs = [np.array(v, dtype=float) for v in ((0, 0, 1), (0, 0, -1), (1, 0, 0), (-0.5, 0.866, 0))]
+        elif kind_d == 1:    # all ligands in one hemisphere (umbrella)
+            dirs = [np.array([math.cos(a) * 0.9, math.sin(a) * 0.9, 0.45]) for a in (0.3, 1.9, 3.4, 5.0)]
+        else:
+            dirs = [np.array([rnd.gauss(0, 1) for _ in range(3)]) for _ in range(4)]
+        dirs = [v / np.linalg.norm(v) + np.array([rnd.uniform(-0.08, 0.08) for _ in range(3)]) for v in dirs]
+        dirs = [v / np.linalg.norm(v) for v in dirs]
+        if min(float(np.dot(dirs[i], dirs[j])) for i in range(4) for j in range(i)) > math.cos(math.radians(50)):
+            continue
+        if any(float(np.dot(dirs[i], dirs[j])) > math.cos(math.radians(50)) for i in range(4) for j in range(i)):
+            continue
+        centre_el = rnd.choice([16, 34, 52, 14])
+        lig = rnd.sample([1, 9, 17, 35], 4)
+        pts = np.array([np.zeros(3)] + [d * (r_cov2[centre_el] + r_cov2[e]) for d, e in zip(dirs, lig)])
+        els = [centre_el] + lig
+        ok0, _ = geom.general_position(els, pts)
+        if not ok0:
+            continue
+        try:
+            g0 = SMG.from_geometry(Geometry(els, pts))
+        except Exception:
+            continue          # an arrangement the perception refuses: not judged
+        p0, _ = project(g0, drive.IDM)
+        if len(p0["bonds"]) != 4 or not p0["ast"]:
+            continue
+        made += 1
+        for k in range(4 if tier == "quick" else 10):
+            mirror = (k % 3 == 2)
+            perm = list(range(5))
+            rnd.shuffle(perm)
+            c1 = geom.rigid(pts, rnd)
+            if mirror:
+                c1 = geom.reflect(c1)
+            c1 = c1[perm]
+            e1 = [els[i] for i in perm]
+            if not geom.general_position(e1, c1)[0]:
+                continue
+            try:
+                g1 = SMG.from_geometry(Geometry(e1, c1))
+            except Exception as e:
+                rep.violation(f"C07|from_geometry|distorted-4-coordinate|raises-after-transform:{type(e).__name__}",
+                              "from_geometry raised on a permuted copy of a geometry it accepted", {"elements": els, "coords": pts.tolist()})
+                continue
+            p1, _ = project(g1, drive.IDM)
+            rid += 1
+            recs.append({"id": rid, "g0": drive.gjson(p0), "g1": drive.gjson(p1), "sigma": [[perm[j], j] for j in range(5)],
+                         "mirror": mirror, "file": f"distorted-4-coordinate:{('see-saw', 'umbrella', 'random')[kind_d]}", "perm": perm})
     # reactions: reactant / product / TS moved independently
     triples = [("tests__unit__data__methylamine_phosgenation_trans_r.xyz", "tests__unit__data__methylamine_phosgenation_trans_p.xyz",
                 "tests__unit__data__methylamine_phosgenation_trans_ts.xyz"),
